@@ -66,7 +66,7 @@ function* directives(full) {
     const d = { name, arg, mods, shape };
     if (!abstainDir(d)) yield d;
   }
-  for (const special of ['v-html', 'v-text', 'vHtml']) for (const shape of ['x', 'call', 'str', 'strBsl', 'strEnt', 'strSq', 'strNL']) yield { special, shape };
+  for (const special of ['v-html', 'v-text', 'vHtml', 'vText']) for (const shape of ['x', 'call', 'str', 'strBsl', 'strEnt', 'strSq', 'strNL', 'arr1', 'arrArg', 'arrAll']) yield { special, shape };
 }
 
 function* contexts(full, extra) {
